@@ -36,6 +36,13 @@ func (w *W) Emit(v any) {
 	w.mu.Unlock()
 }
 
+// Flush writes the buffered lines to the file (a driver that may be killed calls it at safe points).
+func (w *W) Flush() error {
+	w.mu.Lock()
+	defer w.mu.Unlock()
+	return w.b.Flush()
+}
+
 func (w *W) Close() error {
 	w.mu.Lock()
 	defer w.mu.Unlock()
